@@ -73,7 +73,8 @@ func (env *Env) IsJavaSourceFile() bool {
 
 func (env *Env) GetDoc() *model.Javadoc {
 	if env.Node.JavaDoc == nil {
-		env.Node.JavaDoc = &model.Javadoc{}
+		// an entity without a Javadoc answers with an empty one; the node itself is not touched
+		return &model.Javadoc{}
 	}
 	return env.Node.JavaDoc
 }
